@@ -488,4 +488,47 @@ theorem spec_holds (c : UCase) (h : wellformed c = true) : Spec.C19 c (run c) = 
   have hP' : c.prompt ≠ [] := by intro hn; rw [hn] at hP; simp at hP
   exact runOps_spec c hP' c.ops [] (init c) (init_inv c hc) hwf
 
+/-! ### non-vacuity, and what the hypotheses exclude -/
+
+/-- prompt `=> `, chunk size 3, the console's output cut into 1-, 2-, 3- and 5-byte pieces:
+    `exec("echo", "a b'c\\")` → `hi\n`; `env("foo", "bar $x")`; `env("foo")`;
+    `exec0("crc32", "0")` → `ab ==> xy\n` (the override is active); `test("f")` with status 7 -/
+def demo : UCase := ⟨[61, 62, 32], 3, [1, 2, 3, 1, 2, 3, 1, 2, 3, 5, 5, 5, 5, 5, 5],
+  [.cmd .exec [[101, 99, 104, 111], [97, 32, 98, 39, 99, 92]] [104, 105, 10] 0,
+   .env [102, 111, 111] (some [98, 97, 114, 32, 36, 120]),
+   .env [102, 111, 111] none,
+   .cmd .exec0 [crcName, [48]] [97, 98, 32, 61, 61, 62, 32, 120, 121, 10] 0,
+   .cmd .test [[102]] [] 7]⟩
+
+set_option maxRecDepth 100000 in
+/-- the hypotheses of `spec_holds` are satisfiable by a non-trivial case … -/
+example : wellformed demo = true := by decide +kernel
+
+set_option maxRecDepth 100000 in
+/-- … on which the model returns what was put in -/
+example : (run demo).map (·.val) =
+    [.rc 0 ['h', 'i', '\n'], .out ['b', 'a', 'r', ' ', '$', 'x'], .out ['b', 'a', 'r', ' ', '$', 'x'],
+     .out ['a', 'b', ' ', '=', '=', '>', ' ', 'x', 'y', '\n'], .bool false] := by decide +kernel
+
+example : Spec.C19 demo (run demo) = true := spec_holds demo (by decide +kernel)
+
+/-- prompt `=> `, `exec("md")` prints `=> x\n`, and the transport hands out the 4 echo bytes, then
+    exactly the 3 bytes `=> `: a piece boundary right behind a prompt look-alike -/
+def early : UCase := ⟨[61, 62, 32], 4096, [4, 3], [.cmd .exec [[109, 100]] [61, 62, 32, 120, 10] 0]⟩
+
+set_option maxRecDepth 100000 in
+/-- **the no-early-prompt hypothesis is needed** (and is a property of tbot's protocol, not of the
+    model): with that boundary tbot takes the look-alike for the prompt — the output comes back
+    empty and the status read is garbage.  The case is not `wellformed`, and the Spec claims
+    nothing about it (`stop`). -/
+theorem early_prompt_confuses :
+    wellformed early = false ∧ (run early).map (·.val) = [.err "invalid-retcode"]
+      ∧ Spec.C19 early (run early) = true := by decide +kernel
+
+/-- **F13** (repaired in the tree this model mirrors): without dropping the left-over CR, the
+    crc32 workaround returns `…\r\n` where the text of the output is `…\n` -/
+theorem crc_defect_witness :
+    text ([97] ++ [13]) ++ ['\n'] ≠ text ([97] ++ [13, 10])
+      ∧ stripCr (text ([97] ++ [13])) ++ ['\n'] = text ([97] ++ [13, 10]) := by decide
+
 end C19
